@@ -216,6 +216,8 @@ class Analysis:
                 return Analysis.id(index, node)
         if isinstance(node, pr.UnaryOp):
             return Analysis.unary_op(index, node)
+        if isinstance(node, pr.Label):  # a label is only a marker
+            return Analysis.compute_relation(index, node.stmt, dg)
         if isinstance(node, pr.If):
             return Analysis.if_stmt(index, node, dg)
         if isinstance(node, (pr.While, pr.DoWhile)):
